@@ -138,6 +138,7 @@ def run(args):
             by_stream.setdefault(c[0].split(" ")[1], []).append((c, m))
         names = {"policy": "result_numeric_type/needs_float_promotion (whole table)", "litinfo": "PowExponentKind::from_literal_info",
                  "types": "checker type, IR type, emit plans", "bind": "annotated let / return / argument verdicts",
+                 "ctype": "type the const evaluator gives `const K = E` over const names",
                  "compound": "compound-assignment verdicts", "cplan": "emit plan of the desugared compound assignment (local variable and mut parameter)"}
         for name, items in sorted(by_stream.items()):
             ctx.tie(f"model = real on {names.get(name, name)}", [i[0] for i in items], [i[1] for i in items])
@@ -199,6 +200,9 @@ def run(args):
                 exp = "accept" if spec_bin(op, vt, s, False) == vt else "reject"
                 if real != exp:
                     failures.append({"request": req, "real": real, "why": f"`v {op}= e` with v: {vt}, e: {s} should be {exp}ed"})
+            elif kind == "ctype":
+                if real != s:
+                    failures.append({"request": req, "real": real, "why": f"the const evaluator types the expression as {real}, documented {s}"})
             elif kind == "cplan":
                 op, vt, target = p[2], p[3], p[4]
                 exp_ok = spec_bin(op, vt, s, False) == vt
